@@ -35,7 +35,10 @@ def gen_cases(rng, tier, scale=1):
         # (a) every length 16 .. 16*17+15: each unrolled tail 1..7 (len < 128) and each
         #     initial-block count 0..7 in front of the last eight (128 <= len < 256), with every
         #     stealing residue
-        for rep in range((3 if thorough else 1) * scale):
+        #     Repeated with fresh keys/tweaks: the chain of GF(2^128) doublings carries or not at each
+        #     step depending on the encrypted tweak, and a tail that mishandles one carry pattern
+        #     (probability 1/4 .. 1/8 per random tweak; seed C03-e) must meet it at its own length.
+        for rep in range((8 if thorough else 4) * scale):
             for ln in range(16, 16 * 17 + 16):
                 cases.append(mk_case(rng, ks, ln, "sweep"))
         # (b) k*128 + m*16 + r: main loop taken 0..k-1 times (sse/avx), by-16 / by-8 loops (vaes)
